@@ -177,6 +177,18 @@ theorem tie_struct_shape :
     observation domain and template id - a schedule no deterministic input reproduces - so it is tied here.) -/
 theorem tie_template_elements_never_changed_in_place : templateIesInPlace = [] := by decide
 
+/-- The collector arms NO deadline on any connection: the translator lists every call of a method named
+    SetDeadline / SetReadDeadline / SetWriteDeadline in the non-test files of pkg/collector, as (enclosing
+    function, method); there is none. The model's connections deliver whatever arrives, whenever it
+    arrives - a session may be idle or slow for any length of time: C12's per-connection FIFO /
+    exactly-once theorems and C11's segmentation independence both quantify over timing (a schedule, a
+    segmentation, carries no clock). A deadline that is armed and not cleared (say, around the TLS
+    handshake, or per message body) cuts a healthy session after that much wall-clock time and loses what
+    the exporter sends afterwards. A change that arms a deadline is reported as `no-failing-input-found`
+    by this tie unless the dynamic side finds an input: harness-mux's `<n>w<ms>` clients (a session that
+    stays idle for 6 s / 11 s between two of its messages, over TCP and TLS) are there to find one. -/
+theorem tie_collector_arms_no_deadline : Generated.LocksCollector.deadlineCalls = [] := by decide
+
 /-! ## Non-vacuity -/
 
 /-- two connections, a fair schedule: everything is delivered, per-connection order kept, the map is empty, stopped -/
